@@ -220,27 +220,101 @@ def r2(ctx):
     import itertools
     from rules.common import tt_eval
 
-    for k_, (s, v) in enumerate(comps):
-        ga = guard_atoms(cfg, cfg.node_of(s))
-        g = v.generators[0]
-        var = u(g.target)
-        base_ok = len(v.generators) == 1 and u(g.iter) == readv and u(v.elt) == "%s.position" % var
-        A, B, C = "%s.position in phased_positions_set" % var, "None is %s" % het_p, "%s.position in %s[%s.sample_id]" % (var, het_p, readv)
-        cond = ast.BoolOp(op=ast.And(), values=list(g.ifs)) if len(g.ifs) != 1 else g.ifs[0]
-        wrong = None
-        name = "no-het-map" if (B, True) in ga else ("with-het-map" if (B, False) in ga else "any")
-        try:
-            for va, vb, vc in itertools.product((False, True), repeat=3):
-                if ((B, True) in ga and not vb) or ((B, False) in ga and vb):
-                    continue  # valuation excluded by the guard of this definition
-                got = tt_eval(cond, {A: va, B: vb, C: vc}) if g.ifs else True
-                if got != (va and (vb or vc)) and wrong is None:
-                    wrong = "phased=%s, het map absent=%s, het in sample=%s -> included=%s" % (va, vb, vc, got)
-            okf = base_ok and wrong is None
-            msg = "position filter `%s` gives %s" % (u(cond)[:90], wrong) if wrong else "comprehension is not over the read's own variants"
-        except ValueError as e:
-            okf, msg = False, "position filter `%s` uses a condition outside {phased position, het map present, het in the read's sample}: %s" % (u(cond)[:90], e)
-        ctx.ob(fc.qual, "read-positions-filter:%s" % name, okf, fc.loc(s), "a read contributes exactly its positions that are phased and (if a het map is given) heterozygous in the read's sample -- checked over all valuations of the three conditions" if okf else msg)
+    # which positions of a read are used: read path by path from the start of the read loop's body to the merge loop, with
+    # the definitions of `positions` composed (a second comprehension over `positions` filters the first one's result)
+    from sa import pathfx
+
+    def flatten(e):
+        """(base iterable text, element expr, [conditions]) of a (possibly nested) list comprehension over the read"""
+        if not (isinstance(e, (ast.ListComp, ast.GeneratorExp)) and len(e.generators) == 1):
+            return None
+        g = e.generators[0]
+        inner = flatten(g.iter) if isinstance(g.iter, (ast.ListComp, ast.GeneratorExp)) else None
+        if inner is None:
+            return u(g.iter), u(g.target), e.elt, list(g.ifs)
+        base, var, ielt, iconds = inner
+        if not isinstance(g.target, ast.Name):
+            return None
+        env_ = {g.target.id: ielt}
+        return base, var, pathfx.subst(e.elt, env_), iconds + [pathfx.subst(c_, env_) for c_ in g.ifs]
+
+    def empty_under(ps, vb):
+        """Is `positions` known to be empty on this path when the het map is absent (vb) / present (not vb)?  Reads the not-taken
+        side of `if <het map given> and positions:` -- a conjunction that failed although its het-map conjunct holds."""
+        for t_, p_ in ps.atoms:
+            if p_:
+                continue
+            try:
+                e_ = ast.parse(t_, mode="eval").body
+            except SyntaxError:
+                continue
+            vals = e_.values if isinstance(e_, ast.BoolOp) and isinstance(e_.op, ast.And) else [e_]
+            rest = []
+            for v_ in vals:
+                at_ = atoms(v_, True)
+                if at_ == {("None is %s" % het_p, False)}:
+                    if vb:
+                        rest = None  # this conjunct is false itself: nothing follows for the others
+                        break
+                elif at_ == {("None is %s" % het_p, True)}:
+                    if not vb:
+                        rest = None
+                        break
+                else:
+                    rest.append(v_)
+            if rest is not None and len(rest) == 1:
+                r0 = rest[0]
+                if isinstance(r0, ast.Compare) and len(r0.ops) == 1 and isinstance(r0.ops[0], (ast.Gt, ast.Lt)):
+                    r0 = r0.left if isinstance(r0.ops[0], ast.Gt) else r0.comparators[0]
+                if isinstance(r0, ast.Call) and u(r0.func) == "len" and len(r0.args) == 1:
+                    r0 = r0.args[0]
+                cur = ps.env.get("positions")
+                if u(r0) == "positions" or (cur is not None and u(r0) == u(cur)):
+                    return True
+        return False
+
+    mls = [n for n in ast.walk(rl[0]) if isinstance(n, ast.For) and n is not rl[0] and any(isinstance(c, ast.Call) and u(c.func) == "component_finder.merge" for c in ast.walk(n))]
+    if comps and len(mls) == 1:
+        body0 = [b for b in cfg.succ(cfg.node_of(rl[0]), "loop")]
+        psums = []
+        for b0 in body0:
+            psums += pathfx.summaries(cfg, b0, cfg.node_of(mls[0]), opaque=(readv,))
+        seen_names = set()
+        for ps in psums:
+            val = ps.env.get("positions")
+            fl = flatten(val) if val is not None else None
+            name = "no-het-map" if ps.has("None is %s" % het_p, True) else ("with-het-map" if ps.has("None is %s" % het_p, False) else "any")
+            if fl is None:
+                ctx.ob(fc.qual, "read-positions-filter:%s" % name, None, fc.loc(mls[0]), "cannot read what `positions` holds on a path into the merge loop (%s)" % (u(val)[:80] if val is not None else "undefined"))
+                continue
+            base, var, elt, conds = fl
+            base_ok = base == readv and u(elt) == "%s.position" % var
+            A, B, C = "%s.position in phased_positions_set" % var, "None is %s" % het_p, "%s.position in %s[%s.sample_id]" % (var, het_p, readv)
+            cond = ast.BoolOp(op=ast.And(), values=conds) if len(conds) > 1 else (conds[0] if conds else None)
+            wrong = None
+            try:
+                for va, vb, vc in itertools.product((False, True), repeat=3):
+                    if (ps.has(B, True) and not vb) or (ps.has(B, False) and vb):
+                        continue  # valuation excluded by the guards of this path
+                    if empty_under(ps, vb):
+                        continue  # on this path and under this valuation `positions` is empty: nothing is contributed
+                    got = tt_eval(cond, {A: va, B: vb, C: vc}) if cond is not None else True
+                    if got != (va and (vb or vc)) and wrong is None:
+                        wrong = "phased=%s, het map absent=%s, het in sample=%s -> included=%s" % (va, vb, vc, got)
+                okf = base_ok and wrong is None
+                msg = "position filter `%s` gives %s" % (u(cond)[:90] if cond is not None else "<none>", wrong) if wrong else "comprehension is not over the read's own variants"
+            except ValueError as e:
+                okf, msg = None, "position filter `%s` uses a condition outside {phased position, het map present, het in the read's sample}: %s" % (u(cond)[:90], e)
+            # a path on which `positions` is known to be empty contributes nothing, whatever the filter says
+            if okf is False and (ps.has("positions", False) or ps.has("0 < len(positions)", False)) and base_ok:
+                okf, msg = True, ""
+            key = (name, u(cond) if cond is not None else "")
+            if key in seen_names:
+                continue
+            seen_names.add(key)
+            ctx.ob(fc.qual, "read-positions-filter:%s" % name, okf, fc.loc(mls[0]), "a read contributes exactly its positions that are phased and (if a het map is given) heterozygous in the read's sample -- checked over all valuations of the three conditions, path by path" if okf else msg)
+    elif comps:
+        ctx.ob(fc.qual, "read-positions-filter:any", None, fc.loc(rl[0]), "merge loop of the read loop not found")
     merges = [c for c in ctx.prog.calls_in(fc.node) if u(c.func) == "component_finder.merge"]
     ctx.require(len(merges) == 2, "expected two merge sites (reads, master block)")
     for c in merges:
@@ -304,7 +378,7 @@ def r3(ctx):
     ctx.ob(run.qual, "components-from-the-solvers-reads", ok, run.loc(coc[0]), "components are computed from the same read set the solver phased" if ok else "compute_overall_components gets %s, the solver %s" % (amap.get("all_reads"), reads))
     oc = ctx.func(PH + ".compute_overall_components")
     fcs = [c for c in ctx.prog.calls_in(oc.node) if u(c.func) == "find_components"]
-    ok = (None if not fcs else (len(fcs) == 1 and [u(a) for a in fcs[0].args[:2]] == ["accessible_positions", "all_reads"]))
+    ok = (None if not fcs else all([u(a) for a in c_.args[:2]] == ["accessible_positions", "all_reads"] for c_ in fcs))
     ctx.ob(oc.qual, "find-components-gets-those-reads", ok, oc.loc(fcs[0]) if fcs else oc.loc(), "find_components(accessible_positions, all_reads, ...)" if ok else "find_components is not called with the accessible positions and the solver's reads")
     # readsets[sample] is the selected read set of that sample; merge_readsets adds every read
     st = [s for s in util.store_sites(run.node) if s.kind == "subscript" and u(s.target.value) == "readsets"]
@@ -328,41 +402,63 @@ def r3(ctx):
 def r4(ctx):
     oc = ctx.func(PH + ".compute_overall_components")
     cfg = ctx.cfg(oc)
-    defs = [(s, v) for s, v in util.assignments_to(oc.node, "master_block") if isinstance(v, ast.AST)]
-    nn = [(s, v) for s, v in defs if not (isinstance(v, ast.Constant) and v.value is None)]
-    ctx.require(len(nn) >= 1, "no non-None definition of master_block")
-    covered = set()
-    for s, v in nn:
-        ga = guard_atoms(cfg, cfg.node_of(s))
-        ok = ("1 < len(family)", True) in ga and ("genetic_haplotyping", True) in ga
-        ctx.ob(oc.qual, "master-block-guard:%s" % u(v)[:50], ok, oc.loc(s), "a master block exists only for a real family with genetic haplotyping enabled" if ok else "master_block = %s is not guarded by len(family) > 1 and genetic_haplotyping" % u(v))
-        trusted_forms = ("sorted(set(homozygous_positions).intersection(accessible_positions_set))", "sorted(accessible_positions_set.intersection(homozygous_positions))", "sorted(set(homozygous_positions) & accessible_positions_set)", "sorted(accessible_positions_set & set(homozygous_positions))")
-        if ("distrust_genotypes", True) in ga:
-            mode = "distrust"
-            okv = u(v) == "sorted(hom_in_any_sample)"
-            why = "under --distrust-genotypes the block is the re-derived homozygous set"
-            covered.add(True)
-        elif ("distrust_genotypes", False) in ga:
-            mode = "trusted"
-            okv = u(v) in trusted_forms
-            why = "the block is homozygous ∩ accessible"
-            covered.add(False)
-        else:
-            # one definition for both modes: under --distrust-genotypes the solver may have changed genotypes, so a block
-            # taken from the input's homozygous positions is wrong there
-            mode = "both"
-            covered |= {True, False}
-            okv = False if "homozygous_positions" in u(v) else None
-            why = "master_block = %s" % u(v)
-        ctx.ob(oc.qual, "master-block-value:%s" % mode, okv, oc.loc(s), why if okv else ("master_block = %s also under --distrust-genotypes, where the homozygous sites have to be re-derived from the phasing result" % u(v) if mode == "both" else "master_block = %s" % u(v)))
-    for m_, nm_ in ((True, "distrust"), (False, "trusted")):
-        if m_ not in covered:
-            ctx.ob(oc.qual, "master-block-value:%s" % nm_, False, oc.loc(), "no master block is defined %s --distrust-genotypes" % ("under" if m_ else "without"))
-    none0 = [(s, v) for s, v in defs if isinstance(v, ast.Constant) and v.value is None]
-    ctx.ob(oc.qual, "no-master-block-by-default", len(none0) == 1, oc.loc(), "master_block starts as None" if none0 else "master_block has no None default")
+    # what reaches find_components as master block, read path by path: whatever the layout (one exit or one call per mode, a
+    # None default or an else branch, if statements or conditional expressions)
+    from sa import pathfx
+
     fcs = [c for c in ctx.prog.calls_in(oc.node) if u(c.func) == "find_components"]
-    ok = (None if not fcs else (len(fcs) == 1 and len(fcs[0].args) >= 3 and u(fcs[0].args[2]) == "master_block"))
-    ctx.ob(oc.qual, "master-block-passed-on", ok, oc.loc(), "the master block is the third argument of find_components" if ok else "master_block is not passed to find_components")
+    ctx.require(len(fcs) >= 1, "compute_overall_components no longer calls find_components")
+    fparams = util.params_of(ctx.func(PH + ".find_components").node)
+    mutated = {util.root_name(s_.target) for s_ in util.store_sites(oc.node) if s_.kind == "call"} | {"accessible_positions_set"}
+    # containers created empty are filled later, possibly through an alias (a dict of target sets): they stand for themselves
+    for n_ in walk_function(oc.node):
+        if isinstance(n_, (ast.Assign, ast.AnnAssign)) and n_.value is not None:
+            t_ = n_.targets[0] if isinstance(n_, ast.Assign) else n_.target
+            if isinstance(t_, ast.Name) and u(n_.value) in ("set()", "dict()", "list()", "[]", "{}", "defaultdict(set)", "defaultdict(list)"):
+                mutated.add(t_.id)
+    trusted_forms = ("sorted(set(homozygous_positions).intersection(accessible_positions_set))", "sorted(accessible_positions_set.intersection(homozygous_positions))", "sorted(set(homozygous_positions) & accessible_positions_set)", "sorted(accessible_positions_set & set(homozygous_positions))")
+    seen = {}
+    for c in fcs:
+        b = util.bound_args(c, ctx.func(PH + ".find_components").node, skip_self=False)
+        if b is None:
+            ctx.ob(oc.qual, "master-block-passed-on", None, oc.loc(c), "cannot bind the arguments of find_components(...)")
+            continue
+        marg = b.get(fparams[2])
+        for ps in pathfx.summaries(cfg, dst=cfg.node_containing(c), opaque=tuple(x for x in mutated if x)):
+            val = pathfx.subst(marg, ps.env) if marg is not None else ast.Constant(value=None)
+            fam = ps.has("1 < len(family)", True) and ps.has("genetic_haplotyping", True)
+            nofam = ps.has("1 < len(family)", False) or ps.has("genetic_haplotyping", False) or any((not p_) and "len(family)" in t_ and "genetic_haplotyping" in t_ for t_, p_ in ps.atoms)
+            dis = True if ps.has("distrust_genotypes", True) else (False if ps.has("distrust_genotypes", False) else None)
+            mode = {True: "distrust", False: "trusted", None: "both"}[dis]
+            is_none = isinstance(val, ast.Constant) and val.value is None
+            if is_none:
+                kind, okv = "none", (True if nofam else (False if fam else None))
+                why = "no master block without a real family / genetic haplotyping" if okv else ("no master block is passed although len(family) > 1 and genetic haplotyping is on (%s genotypes)" % mode if okv is False else "cannot tell under which conditions None is passed as master block")
+            else:
+                kind = "value"
+                if not fam:
+                    # a guard that was read and lacks a conjunct is a violation; a condition this rule cannot read is not
+                    need = [t_ for t_ in ("1 < len(family)", "genetic_haplotyping") if not ps.has(t_, True)]
+                    unread = any(t_ not in ("1 < len(family)", "genetic_haplotyping") and any(k_ in t_ for k_ in ("len(family)", "genetic_haplotyping")) for t_, p_ in ps.atoms)
+                    okv, why = (None if unread and not nofam else False), "master block %s is passed without the guard %s" % (u(val)[:60], " and ".join(need))
+                elif dis is True:
+                    okv = u(val) == "sorted(hom_in_any_sample)"
+                    why = "under --distrust-genotypes the block is the re-derived homozygous set" if okv else "master block under --distrust-genotypes is %s" % u(val)[:80]
+                elif dis is False:
+                    okv = u(val) in trusted_forms
+                    why = "the block is homozygous ∩ accessible" if okv else "master block with trusted genotypes is %s" % u(val)[:80]
+                else:
+                    okv = False if "homozygous_positions" in u(val) else None
+                    why = "master_block = %s also under --distrust-genotypes, where the homozygous sites have to be re-derived from the phasing result" % u(val)[:80]
+            key = (mode, kind)
+            prev = seen.get(key)
+            if prev is None or (prev[0] is True and okv is not True):
+                seen[key] = (okv, why, c)
+    for (mode, kind), (okv, why, c) in sorted(seen.items()):
+        ctx.ob(oc.qual, "master-block-%s:%s" % (kind, mode), okv, oc.loc(c), why)
+    for m_, nm_ in (("distrust", "under"), ("trusted", "without")):
+        if not any(k_[1] == "value" and k_[0] in (m_, "both") for k_ in seen):
+            ctx.ob(oc.qual, "master-block-value:%s" % m_, False, oc.loc(), "no master block is defined %s --distrust-genotypes" % nm_)
     aps = util.single_def(oc.node, "accessible_positions_set")
     ok = aps is not None and u(aps) == "set(accessible_positions)"
     ctx.ob(oc.qual, "accessible-set", ok, oc.loc(), "accessible_positions_set = set(accessible_positions)" if ok else "accessible_positions_set changed")
@@ -435,7 +531,12 @@ def r5(ctx):
         ctx.ob(f.qual, "HS-is-component-plus-1", ok, f.loc(), "HS entries = haploid component + 1" if ok else "HS entries are not component + 1")
     wr = ctx.func(w + ".write")
     setter = [c for c in ctx.prog.calls_in(wr.node) if u(c.func) == "self._set_phasing_tags"]
-    ok = (None if not setter else (len(setter) == 1 and [u(a) for a in setter[0].args[:3]] == ["call", "components[pos]", "phases[pos]"]))
+    def by_pos(e):
+        while isinstance(e, (ast.Attribute, ast.Subscript)) and not (isinstance(e, ast.Subscript) and u(e.slice) == "pos"):
+            e = e.value
+        return isinstance(e, ast.Subscript) and u(e.slice) == "pos"
+
+    ok = (None if not setter else (len(setter) == 1 and len(setter[0].args) >= 3 and [u(a) for a in setter[0].args[:2]] == ["call", "components[pos]"] and by_pos(setter[0].args[2])))
     posd = util.single_def(wr.node, "pos")
     ok = ok and posd is not None and u(posd) == "record.start"
     ctx.ob(wr.qual, "component-looked-up-by-0-based-start", ok, wr.loc(), "the component written for a record is components[record.start] (0-based), so PS = leftmost position + 1 = its POS" if ok else "setter arguments / pos definition changed")
